@@ -751,6 +751,22 @@ func genSmallStructs(g *G, count int) {
 	for n := 0; n <= 14; n++ {
 		g.emit("readRA", hx(r.bytes(n)))
 	}
+	// every truncation point of addresses whose options hold EMPTY values and unusual-but-legal texts for the keys
+	// the accessors interpret (the value returned with an error then has `caps` but no `host`, `host` but no `port` …)
+	g.in("routeraddress-option-cuts")
+	for _, opts := range [][][2][]byte{
+		{{[]byte("caps"), []byte("")}, {[]byte("host"), []byte("192.0.2.1")}, {[]byte("port"), []byte("4567")}},
+		{{[]byte("caps"), []byte("6")}, {[]byte("host"), []byte("")}, {[]byte("port"), []byte("")}},
+		{{[]byte("host"), []byte("::ffff:192.0.2.7")}, {[]byte("i"), []byte("")}, {[]byte("s"), []byte("")}, {[]byte("v"), []byte("2")}},
+	} {
+		for _, style := range []string{"NTCP2", "SSU2", ""} {
+			b := cat([]byte{5}, make([]byte, 8), cat([]byte{byte(len(style))}, []byte(style)), encMapping(opts))
+			g.emit("readRA", hx(b))
+			for k := 9; k < len(b); k++ {
+				g.emit("readRA", hx(b[:k]))
+			}
+		}
+	}
 }
 
 // genSteeredLengths: "length-field steering". A declared length inside a composite structure is set so that the
